@@ -1469,8 +1469,17 @@ class Executor:
     def _get_unused_physical_qubit(self) -> int:
         # Assuming that the topology of the unit module is a complete graph
         # is does not matter which unused physical qubit we choose for now
+        # Qubits of delivered pairs that still wait to be mapped are not free either
+        pending = [
+            response.logical_qubit_id
+            for response in self._pending_epr_responses
+            if response.type == ReturnType.OK_K
+        ]
         for physical_address in count(0):
-            if physical_address not in self._used_physical_qubit_addresses:
+            if (
+                physical_address not in self._used_physical_qubit_addresses
+                and physical_address not in pending
+            ):
                 self._used_physical_qubit_addresses.add(physical_address)
                 return physical_address
         raise RuntimeError("should never get here")
